@@ -24,9 +24,14 @@ class Machinery(RuntimeError):
 
 
 def load_known():
-    if not KNOWN.exists():
-        return {"open": [], "fixed": []}
-    return json.loads(KNOWN.read_text())
+    """known_findings.json (committed) plus per-property files under known_findings.d/ (same format)."""
+    out = {"open": [], "fixed": []}
+    files = ([KNOWN] if KNOWN.exists() else []) + sorted((ROOT / "known_findings.d").glob("*.json"))
+    for f in files:
+        d = json.loads(f.read_text())
+        out["open"] += d.get("open", [])
+        out["fixed"] += d.get("fixed", [])
+    return out
 
 
 class Check:
